@@ -94,8 +94,9 @@ def index_formula(kind, s, x, y, z):
     return True
 
 
-def accessors_touch_one_entry(kind, s, cell, us_val):
-    system = grid_system(2, 2, 1, [0, 1, 2, 0]) if kind == "grid" else graph_system([0, 1, 2, 0], [1.0, 8.0, 0.125, 27.0])
+def accessors_touch_one_entry(kind, s, cell, us_val, us_net="A", us_sys="A"):
+    """us_net / us_sys: units systems of the network (the default state is generated in it) and of the system (bare numbers are in it)"""
+    system = grid_system(2, 2, 1, [0, 1, 2, 0], us_net=us_net, us_sys=us_sys) if kind == "grid" else graph_system([0, 1, 2, 0], [1.0, 8.0, 0.125, 27.0], us_net=us_net, us_sys=us_sys)
     n = 4
     before = [float(v) for v in system.state.value]
     cb = [int(c) for c in system.chemostats]
